@@ -62,7 +62,7 @@ Lemma start_rec_shape s r c w f :
    (length (insts (start_rec s r c w f)) = S (length (insts s)) /\
     exists x, nth_error (insts (start_rec s r c w f)) (length (insts s)) = Some x /\ irec x = r /\ ikey x = rkey (getr s r))).
 Proof.
-  unfold start_rec. set (x := getr s r). destruct (negb f && rsucc x); [auto|].
+  unfold start_rec. set (x := getr s r). destruct (negb f && rsucc x || rnil x); [auto|].
   destruct (negb f && is_some (rctx x) && negb (rexited x) && ctx_live s (rctx x)); [auto|]. cbn zeta.
   set (s2 := cancel_inst (stop_timer s (rretry x)) (rcancel x)).
   assert (L2 : length (insts s2) = length (insts s)) by (unfold s2; destruct (Pre_cancel_inst (stop_timer s (rretry x)) (rcancel x)) as (_ & _ & A); destruct (Pre_stop_timer s (rretry x)) as (_ & _ & B); congruence).
@@ -168,7 +168,7 @@ Lemma Op1_reset_core k s cond : Op1 k s (fst (reset_core repaired s k cond)).
 Proof.
   unfold reset_core. destruct (lookup (kmap s) k) as [r|] eqn:Ek; [|apply (Op1_make k s s); [apply Pre_refl | auto | intros _ rec rec' E; rewrite Ek in E; discriminate | now left]].
   destruct (negb (cond_match cond k)); [apply (Op1_make k s s); [apply Pre_refl | auto | now apply lin_same; [apply Pre_refl|] | now left]|].
-  set (x := getr s r). set (s1 := cancel_inst s (rcancel x)). cbn [fx_reset repaired]. rewrite orb_true_r.
+  set (x := getr s r). set (s1 := cancel_inst s (rcancel x)). cbn [fx_reset fx_nilchain repaired]. rewrite w0_repaired.
   pose proof (Pre_new_record s1 k (rlin x) (rexit x)) as PN.
   pose proof (new_record_frame s1 k (rlin x) (rexit x)) as F. cbn zeta in F. destruct F as (F0 & _ & _ & _ & _ & F5 & _ & _ & _ & F9 & _).
   destruct (new_record s1 k (rlin x) (rexit x)) as [s2 r2]. cbn [fst snd] in *.
@@ -349,6 +349,7 @@ Proof.
     + intros; apply PK_same, kmap_cancel_inst. + intros; apply PK_same. apply start_rec_shape.
   - apply PK_same. reflexivity.
   - apply PK_same. unfold cancel_root. destruct (Nat.eqb c 0); reflexivity.
+  - apply PK_same. reflexivity.
 Qed.
 Theorem run_KS dl sc es : KS (run repaired (init dl sc) es).
 Proof. unfold run. apply fold_inv; [intros s e H; now apply (PK_step s e) | exact I]. Qed.
@@ -484,6 +485,7 @@ Proof.
   - exists []. apply OpL_frame.
     + split; [apply PI_cancel_root | split; [apply Mono_cancel_root|]]. unfold cancel_root. destruct (Nat.eqb c 0); [reflexivity|]. cbn [insts set_croots set_insts]. apply map_length.
     + unfold cancel_root. destruct (Nat.eqb c 0); reflexivity.
+  - exists []. apply OpL_frame; [prext | reflexivity].
 Qed.
 
 (* ... and the wake-ups that follow it *)
